@@ -174,7 +174,7 @@ fn selfcheck() -> i32 {
     let mut bad = 0;
     let mut n = 0;
     for kind in [Kind::Linear, Kind::Spline, Kind::Probe1, Kind::Bilinear, Kind::Probe2] {
-        for elem in [Elem::F64, Elem::F32, Elem::Yf] {
+        for elem in [Elem::F64, Elem::F32, Elem::Yf, Elem::I64] {
             for storage in [Storage::Owned, Storage::View, Storage::Shared, Storage::DataView] {
                 for dimty in [DimTy::Ix1, DimTy::Ix2, DimTy::Ix3, DimTy::Ix4, DimTy::Ix5, DimTy::IxDyn] {
                     for min in 0..5 {
